@@ -138,6 +138,24 @@ VARIANTS = [
     V( 'duration-hours-from-days', TIMES, "hours = d_secs // cls.HR", "hours			= w_secs // cls.HR", fires=[ 'T-DURATION' ] ),
     V( 'record-split-once', HFILES, "dt,sn,js = l.split( '\\t', 2 )", "dt,sn,js			= l.split( '\\t' )", fires=[ 'T-RECORD' ] ),
     V( 'record-no-newline', HFILES, "json.dumps( data ))) + '\\n',", "json.dumps( data ))),", fires=[ 'T-RECORD' ] ),
+    # ---- round-2 rules
+    V( 'regex-key-collision', AUTO, "while add in machine.map or add in states:", "while add in machine.map:", fires=[ 'X-FROMREGEX' ], why='defect K' ),
+    V( 'regex-key-dead-collision', AUTO, "while add in machine.map or add in states:", "while add in states:", fires=[ 'X-FROMREGEX' ] ),
+    V( 'regex-wild-membership-raw', AUTO, "if cls.ANY in states[pre]:", "if True in states[pre]:", fires=[ 'X-FROMREGEX' ], why='defect L' ),
+    V( 'regex-chain-from-origin', AUTO, "states[lst][enc] \\\n = states[add]", "states[pre][enc] \\\n                            	= states[add]", fires=[ 'X-FROMREGEX' ] ),
+    V( 'regex-copy-inherits-terminal', AUTO, "def __init__( self, name, terminal=False, alphabet=None,", "def __init__( self, name, terminal=None, alphabet=None,", fires=[ 'X-FROMREGEX' ] ),
+    V( 'ncp-large-before-decoding', DEFAULTS, "parameters = self.decoding\n parameters.large = large\n connection = Connection( **parameters )\n self._NCP = connection.encoding\n self._large = large", "self._large		= large\n            connection		= Connection( **self.decoding )\n            self._NCP		= connection.encoding", fires=[ 'K-NCPSTATE' ] ),
+    V( 'ncp-only-large-stored', DEFAULTS, "self._NCP = connection.encoding\n self._large = large", "self._large		= large", fires=[ 'K-NCPSTATE' ] ),
+    V( 'pathstop-ignores-explicit-attribute', DEVICE, "or ( attribute is not True #   or a default attribute is supplied\n and 'attribute' not in term ) #     and the term didn't contain a supplied one", "or attribute is not True", fires=[ 'D-PATHSTOP' ] ),
+    V( 'pathstop-equivalent', DEVICE, "or not attribute #   or no Attribute desired (must return None)", "or attribute in ( False, None, 0 ) or not attribute", silent=[ 'D-PATHSTOP' ] ),
+    V( 'keypass-normalised', MAIN, "def __setitem__( self, key, value ):\n super( Attribute_print, self ).__setitem__( key, value )", "def __setitem__( self, key, value ):\n            if isinstance( key, slice ):\n                key	= slice( *key.indices( len( self )))\n            super( Attribute_print, self ).__setitem__( key, value )", fires=[ 'K-KEYPASS' ] ),
+    V( 'route-checks-outside-try', UCMM, "rsp,ela = client.await_response( conn, timeout=timeout )\n assert rsp, \\", "rsp,ela	= client.await_response( conn, timeout=timeout )\n                                assert True, \\", fires=[ 'P-ROUTE' ] ),
+    V( 'send-buffered', MAIN, "try:\n conn.send( rpy )\n except socket.error as exc:\n log.detail( \"Session ended (client abandoned): %s\", exc )\n stats['eof'] = True\n if data.response.enip.status:", "if source.peek() is None:\n                            try:\n                                conn.send( rpy )\n                            except socket.error as exc:\n                                log.detail( \"Session ended (client abandoned): %s\", exc )\n                                stats['eof'] = True\n                        if data.response.enip.status:", fires=[ 'P-ONE' ] ),
+    V( 'client-data-every-call', CLIENT, "if self.engine is None:\n self.data = dotdict( peer=addr )\n self.engine = self.frame.run( source=self.source, data=self.data )", "self.data		= dotdict( peer=addr )\n            if self.engine is None:\n                self.engine	= self.frame.run( source=self.source, data=self.data )", fires=[ 'P-ACT' ] ),
+    V( 'write-elementwise', LOGIX, "attribute[beg:end] = data[context].data\n data.status = 0x00", "for i,v in zip( range( beg, end ), data[context].data ):\n                    attribute[i]	= v\n                data.status		= 0x00", fires=[ 'R-SNAPSHOT' ] ),
+    V( 'setup-fast-path', LOGIX, "with setup.lock:\n if not lookup( 0x01, 1 ):", "if setup.ucmm:\n        return setup.ucmm\n    with setup.lock:\n        if not lookup( 0x01, 1 ):", fires=[ 'R-LOCK-4' ] ),
+    V( 'elements-truthiness-default', LOGIX, "elm = data[context].get( 'elements', cnt - beg )", "elm			= data[context].get( 'elements' ) or cnt - beg", fires=[ 'D-VALIDATE' ] ),
+    V( 'frag-status-byte-criterion', LOGIX, "completed = end == endactual\n data[context].data = recs", "completed		= end == endactual and offremains+max_size >= len( recs ) * attribute.parser.struct_calcsize\n                data[context].data	= recs", fires=[ 'F-STATUS' ] ),
     # ---- C17 render / parse (T-RENDER)
     V( 'render-fraction-from-unrounded', TIMES, "result += ( '%.*f' % ( subsecond, value ))[-subsecond-1:]", "result	       += ( '%.*f' % ( subsecond, self.value ))[-subsecond-1:]", fires=[ 'T-RENDER' ] ),
     V( 'render-seconds-from-unrounded', TIMES, "dt = self.datetime_from_number( value, tzinfo=tzinfo )", "dt			= self.datetime_from_number( self.value, tzinfo=tzinfo )", fires=[ 'T-RENDER' ] ),
